@@ -147,7 +147,16 @@ def r07_2(ctx: Ctx):
     g = ctx.prog.own_method("DemeTree", "_do_sprout")
     inner_calls = [c for c in body_walk(g.node) if isinstance(c, ast.Call) and norm(c.func) == f"{g.self_name()}._next_child_id"]
     ok = len(inner_calls) == 1
-    obs.append(ctx.ob("R07.2", g, inner_calls[0] if inner_calls else g.node, status=OK if ok else VIOLATION, detail="one id computation per created child, followed by the append to the level (R07.1)" if ok else f"{len(inner_calls)} id computations in _do_sprout", construct="one-id-per-child"))
+    why = f"{len(inner_calls)} id computations in _do_sprout"
+    if ok:
+        # the id must be computed inside the innermost loop that creates the child (once per child, after the previous append)
+        create = [c for c in body_walk(g.node) if isinstance(c, ast.Call) and norm(c.func) == "init_from_config"]
+        loops = [n for n in body_walk(g.node) if isinstance(n, (ast.For, ast.While)) and create and any(x is create[0] for x in ast.walk(n))]
+        innermost = min(loops, key=lambda n: sum(1 for _ in ast.walk(n))) if loops else None
+        if innermost is None or not any(x is inner_calls[0] for x in ast.walk(innermost)):
+            ok = False
+            why = "the child id is computed outside the loop that creates the children: every child sprouted from one parent in a round gets the same id"
+    obs.append(ctx.ob("R07.2", g, inner_calls[0] if inner_calls else g.node, status=OK if ok else VIOLATION, detail="one id computation per created child, followed by the append to the level (R07.1)" if ok else why, construct="one-id-per-child"))
     others = [cs for cs in ctx.res.callers_of(f) if cs.caller is not g]
     if others:
         obs.append(ctx.ob("R07.2", others[0].caller, others[0].node, status=VIOLATION, detail="_next_child_id is used outside _do_sprout"))
